@@ -42,7 +42,8 @@ def tier_k(tier):
 
 
 def bounds(tier):
-    return {"collection_types": G.KINDS, "poles": list(G.POLES), "deviation_bound": tier_k(tier),
+    return {"collection_types": G.KINDS, "poles": list(G.POLES),
+            "deviation_bound": {p: (2 if (tier != "quick" and p == "minimal") else tier_k(tier)) for p in G.POLES},
             "axes": len(G.AXES_DECL), "history_collections": 24, "history_pairs": 576,
             "reference_sites": sorted({s for s in SITES})}
 
@@ -62,10 +63,10 @@ SITES = [
 
 
 def blocks(tier):
-    k = tier_k(tier)
     out = []
     for kind in G.KINDS:
         for p in G.POLES:
+            k = 2 if (tier != "quick" and p == "minimal") else tier_k(tier)
             n = sum(1 for _ in G.cases(kind, k, [p]))
             nchunks = max(1, min(64, n // 400))
             for i in range(nchunks):
